@@ -33,6 +33,7 @@ import (
 	"sync"
 	"syscall"
 	"time"
+	"verifharness/ports"
 
 	"verifharness/report"
 	"verifharness/run"
@@ -74,15 +75,7 @@ func (l lockedBuf) Write(p []byte) (int, error) {
 	return len(p), nil
 }
 
-func freePort() string {
-	l, err := net.Listen("tcp", "127.0.0.1:0")
-	if err != nil {
-		panic(err)
-	}
-	defer l.Close()
-	_, p, _ := net.SplitHostPort(l.Addr().String())
-	return p
-}
+func freePort() string { return strconv.Itoa(ports.Free()) }
 
 func (e *Engine) startChild() error {
 	port := freePort()
